@@ -20,7 +20,7 @@ const ruleC02 = "configurations of 1-5 logs (shared keys under different origins
 
 var profC02 = vlib.Profile{
 	Prop: "C02", MinLogs: 1, MaxLogs: 5, MinOps: 3, MaxOps: 24,
-	Storages: []string{"mem", "sql"}, MaxJump: 64, OtherLogPct: 50, Decorate: 20, SharedKeys: true,
+	Storages: []string{"mem", "sql"}, MaxJump: 64, OtherLogPct: 50, Decorate: 20, SharedKeys: true, ECDSAPct: 35,
 	Weights: map[string]int{"grow": 22, "refresh": 4, "fork": 3, "replay": 8, "garbage": 28, "wrongkey": 14, "wrongorigin": 12, "unknownlog": 5, "decorated": 4},
 }
 
@@ -139,7 +139,7 @@ var wkeySets = [][]vlib.WKSpec{
 
 var profC04 = vlib.Profile{
 	Prop: "C04", MinLogs: 1, MaxLogs: 2, MinOps: 2, MaxOps: 16,
-	Storages: []string{"mem", "sql"}, MaxJump: 300, OtherLogPct: 15, Decorate: 45, SharedKeys: true, WKeySets: wkeySets, PlantPct: 60, MaxJunkSigs: 8, NonCanonPct: 20,
+	Storages: []string{"mem", "sql"}, MaxJump: 300, OtherLogPct: 15, Decorate: 45, SharedKeys: true, WKeySets: wkeySets, PlantPct: 60, MaxJunkSigs: 8, NonCanonPct: 20, ECDSAPct: 25,
 	Weights: map[string]int{"grow": 40, "refresh": 30, "decorated": 14, "replay": 12, "badproof": 4, "wrongold": 4, "garbage": 3, "wrongkey": 2, "zero": 3},
 }
 
